@@ -32,6 +32,10 @@ MAXFIXES = (0, 1, 3)
 CALL_TIMEOUT = float(os.environ.get("VERIF_C20_CALL_TIMEOUT", "8"))     # seconds; a normal call takes milliseconds
 
 
+class ScratchGone(Exception):
+    """the scratch project directory was removed from outside (concurrent clean-up of /tmp): not an answer of rope"""
+
+
 class HangError(Exception):
     """raised by the alarm when one call of an entry point does not return in time"""
 
@@ -299,7 +303,7 @@ def light_oracle(text, offset, proposals):
         return None                      # possibly inside a string / comment: the raw text is used there
     prefix = ID_RE.search(before).group()
     head = before[:len(before) - len(prefix)].rstrip(" \t")
-    dotted = head.endswith(".")
+    dotted = head.endswith(".") and not re.search(r"(^|[^\w.])\d[\d_]*\.$", head)    # `3.` is a number
     if re.search(r"(^|\s)from\s*\.+$", head) or re.search(r"(^|\s)(from|import)\s", head):
         return None                      # import statements: dots are relative levels, names are module names
     for p in proposals:
@@ -450,6 +454,8 @@ def sweep_text(project, text, offset, trunc, stats, found, entries=ENTRIES, expe
                         else:
                             rec["count"] += 1
             except Exception as e:  # noqa: BLE001 - the point is to see everything
+                if not os.path.isdir(project.address):
+                    raise ScratchGone(project.address)
                 why = judge(entry, e, valid, offset in ids)
                 repair_refused = False
                 if why is None and simple and mf >= 1 and type(e).__name__ == "ModuleSyntaxError" \
@@ -476,20 +482,28 @@ def sweep_text(project, text, offset, trunc, stats, found, entries=ENTRIES, expe
 def sweep_module(src, full=True, expect=None):
     """Worker entry point: returns (stats, found) for one module.  `full`: truncations too."""
     from rope.base.project import Project
-    d = tempfile.mkdtemp(prefix="ropeverif-c20s-")
-    stats = {"calls": 0}
-    found = {}
-    try:
-        project = Project(d, ropefolder=None)
+    for attempt in range(3):
+        d = tempfile.mkdtemp(prefix="ropeverif-c20s-")
+        stats = {"calls": 0}
+        found = {}
         try:
-            for (text, offset, trunc) in texts_of(src):
-                if trunc and not full:
-                    continue
-                sweep_text(project, text, offset, trunc, stats, found, expect=expect, origin=src)
+            project = Project(d, ropefolder=None)
+            try:
+                for (text, offset, trunc) in texts_of(src):
+                    if trunc and not full:
+                        continue
+                    sweep_text(project, text, offset, trunc, stats, found, expect=expect, origin=src)
+                return stats, found
+            except ScratchGone:
+                if attempt == 2:
+                    raise
+            finally:
+                try:
+                    project.close()
+                except Exception:  # noqa: BLE001
+                    pass
         finally:
-            project.close()
-    finally:
-        shutil.rmtree(d, ignore_errors=True)
+            shutil.rmtree(d, ignore_errors=True)
     return stats, found
 
 
